@@ -30,6 +30,22 @@ type target interface {
 	Close()
 }
 
+// checkTopN: whatever the ranking's age, an answer never names a row twice and lists the
+// counts in non-increasing order.
+func checkTopN(pairs []pilosa.Pair) error {
+	seen := map[uint64]bool{}
+	for i, p := range pairs {
+		if seen[p.ID] {
+			return fmt.Errorf("TopN answer names row %d twice: %v", p.ID, pairs)
+		}
+		seen[p.ID] = true
+		if i > 0 && p.Count > pairs[i-1].Count {
+			return fmt.Errorf("TopN answer is not ordered by count: %v", pairs)
+		}
+	}
+	return nil
+}
+
 // ------------------------------------------------------------------ fragment level
 
 type fragTarget struct {
@@ -228,6 +244,16 @@ func (t *fragTarget) Do(g, k int, o Op) ([]int, error) {
 		}
 		return []int{}, nil
 	case "Noise":
+		if w.Rank {
+			// three more rows in the ranking; their counts go up and down
+			r, c := noiseRow+uint64((g+k)%3), uint64((k*7)%5)
+			if k%3 == 2 {
+				_, err := f.ClearBit(r, c)
+				return []int{}, err
+			}
+			_, err := f.SetBit(r, c)
+			return []int{}, err
+		}
 		_, err := f.SetBit(noiseRow+uint64(g), uint64(k*7919)%SW)
 		return []int{}, err
 	case "Extra":
@@ -246,7 +272,17 @@ func (t *fragTarget) Do(g, k int, o Op) ([]int, error) {
 			f.Rows(0, &c, nil, false, nil)
 			f.Rows(rows[o.R], nil, []uint64{rows[0], rows[1]}, true, &lim)
 		case "topn":
-			f.TopN(2, nil)
+			pairs, err := f.TopN(3, nil)
+			if err == nil {
+				err = checkTopN(pairs)
+			}
+			return []int{}, err
+		case "topnsrc":
+			pairs, err := f.TopNSrc(3, pilosa.NewRow(cols[0], cols[1], cols[2], 333333))
+			if err == nil {
+				err = checkTopN(pairs)
+			}
+			return []int{}, err
 		case "blockdata":
 			f.BlockData(int(rows[o.R] / 100))
 		case "mergeblock":
@@ -619,7 +655,13 @@ func (t *apiTarget) Do(g, k int, o Op) ([]int, error) {
 		return []int{}, err
 	case "Noise":
 		var pql string
-		if w.RowKeys {
+		if w.Rank {
+			verb := "Set"
+			if k%3 == 2 {
+				verb = "Clear"
+			}
+			pql = fmt.Sprintf("%s(%d, %s=%d)", verb, (k*7)%5, fn, noiseRow+uint64((g+k)%3))
+		} else if w.RowKeys {
 			// a first use of yet another new row key, on a column outside the model
 			col := "333333"
 			if w.ColKeys {
@@ -635,6 +677,20 @@ func (t *apiTarget) Do(g, k int, o Op) ([]int, error) {
 		return []int{}, err
 	}
 	if o.Op == "Extra" {
+		if o.Path == "topn" || o.Path == "topnsrc" {
+			pql := fmt.Sprintf("TopN(%s, n=3)", fn)
+			if o.Path == "topnsrc" {
+				pql = fmt.Sprintf("TopN(%s, Row(src=7), n=3)", fn)
+			}
+			v, err := t.query(pql)
+			if err != nil {
+				return []int{}, nil // not judged
+			}
+			if pairs, ok := v.([]pilosa.Pair); ok {
+				return []int{}, checkTopN(pairs)
+			}
+			return []int{}, nil
+		}
 		t.extra(g, k, o)
 		return []int{}, nil
 	}
